@@ -64,6 +64,8 @@ class Executor(ExprMixin):
         self._feas.set("timeout", 200)
         self.vc_counter = 0
         self.witness_hints = None
+        self.assuming = False
+        self._id_seen = {}
         self.stats = {"paths": 0, "forks": 0}
 
     # ------------------------------------------------------------------ infrastructure
@@ -79,10 +81,16 @@ class Executor(ExprMixin):
             self._feas.pop()
 
     def vc(self, st, goal, kind, desc, lineno=0, suffix=""):
+        import zlib
         self.vc_counter += 1
         fn = self.cur.name if self.cur else "?"
         short = fn.split(":")[-1]
-        vid = f"{short}.{kind}.L{lineno}.{self.vc_counter}{suffix}"
+        # stable id: function + kind + clause text (not line numbers / counters, so harmless edits keep ids)
+        key = f"{kind}|{' '.join(desc.split())}"
+        h = "%06x" % (zlib.crc32(key.encode()) & 0xFFFFFF)
+        n = self._id_seen.get((short, h), 0) + 1
+        self._id_seen[(short, h)] = n
+        vid = f"{short}.{kind}.{h}.{n}{suffix}"
         self.vcs.append(VC(vid, kind, desc, list(st.pc), goal, lineno, fn))
 
     def find_function(self, qual: str):
@@ -501,6 +509,12 @@ class Executor(ExprMixin):
         tk.fields["_index"] = fresh("h_index", I)
         tk.fields["_abs"] = fresh("h_abs", PAbs)
         tk.fields["_tokens"] = fresh("h_tokens", TokSeq)
+        g = tk.fields["_tokengen"]
+        tk.fields["_tokengen"] = type(g)(g.items, fresh("h_gpos", I))
+        tk.fields["_stack"] = fresh("h_stack", TokSeq)
+        for fl in ("_call_macro", "_with_macro", "_proc_macro"):
+            tk.fields[fl] = fresh("h" + fl, z3.BoolSort())
+        tk.fields["_lines"] = self.fresh_like(tk.fields["_lines"], "h_lines")
         if parser is not None:
             parser.fields["_cache"] = PyCache.fresh("h_cache")
 
@@ -538,8 +552,12 @@ class Executor(ExprMixin):
             self.vc(st, Tr(g), kind, f"loop invariant `{inv}`", lineno)
 
     def assume_invariants(self, st, lc, extra=None):
-        for inv in lc.get("inv", []):
-            st.assume(Tr(self.spec_eval(inv, st, extra)))
+        self.assuming = True
+        try:
+            for inv in lc.get("inv", []):
+                st.assume(Tr(self.spec_eval(inv, st, extra)))
+        finally:
+            self.assuming = False
 
     def coerce_loop_types(self, st, lc):
         """a Python-side empty list that the loop grows is re-typed as a symbolic sequence (declared in the sidecar)"""
@@ -817,7 +835,14 @@ class Executor(ExprMixin):
             def k(p, v):
                 b = self.eval1(f.value, p)
                 v = NoneVal if v is NONE and b.sort() == ValSeq else lift(v)
-                store(p, z3.Concat(b, z3.Unit(v)))
+                n = z3.Length(b)
+                nw = fresh("appended", b.sort())
+                jq = z3.Int("aj!q")
+                p.assume(z3.Length(nw) == n + 1)
+                p.assume(z3.ForAll([jq], z3.Implies(z3.And(jq >= 0, jq < n), nw[jq] == b[jq])))
+                p.assume(nw[n] == v)
+                p.assume(nw == z3.Concat(b, z3.Unit(v)))
+                store(p, nw)
                 return [(p, NONE)]
             return self.bind(self.eval(e.args[0], st), k)
         if f.attr == "pop" and not e.args:
@@ -858,6 +883,17 @@ class Executor(ExprMixin):
                                             z3.And(z3.Select(nc.present, m), z3.Select(nc.tree, m) == z3.Select(c.tree, m),
                                                    z3.Select(nc.end, m) == z3.Select(c.end, m)))))
         parser.fields["_cache"] = nc
+        # a rule-like callable may pull tokens, push back, toggle the macro flags; it preserves the Tokenizer invariant and
+        # never leaves the cursor past ENDMARKER (assumed here; E2 proves never_past_end for the generated methods)
+        g = tk.fields["_tokengen"]
+        tk.fields["_tokengen"] = type(g)(g.items, fresh("gpos", I))
+        tk.fields["_stack"] = fresh("stack", TokSeq)
+        for fl in ("_call_macro", "_with_macro", "_proc_macro"):
+            tk.fields[fl] = fresh(fl, z3.BoolSort())
+        lm = tk.fields["_lines"]
+        tk.fields["_lines"] = self.fresh_like(lm, "lines")
+        st.assume(self.spec_funcs["tk_ok"](self, st, tk))
+        st.assume(self.spec_funcs["can_peek"](self, st, tk))
         st.assume(z3.And(i2 >= 0, i2 <= z3.Length(tk.fields["_tokens"])))
         st.assume(z3.Implies(truthy(r), (i2 > idx) if fn.strict else (i2 >= idx)))
         st.trace.append(("call", fn.name, node.lineno))
@@ -927,12 +963,18 @@ class Executor(ExprMixin):
             s2.env = dict(env2)
             s2.env["result"] = res
             s2.old = old
-            ok = True
-            for en in c.ensures:
-                g = Tr(self.spec_eval(en, s2))
-                p.assume(g)
+            self.assuming = True
+            try:
+                for en in c.ensures:
+                    g = Tr(self.spec_eval(en, s2))
+                    p.assume(g)
+            finally:
+                self.assuming = False
             if self.feasible(p, z3.BoolVal(True)):
                 out.append((p, res))
+            elif len(results) == 1:
+                # vacuity guard: the callee's postcondition contradicts the caller's path
+                self.vc(p, z3.BoolVal(False), "vacuity", f"postcondition of {short} is consistent with the calling path", node.lineno)
         return out
 
     # ------------------------------------------------------------------ builtins (b_<name>)
@@ -1039,6 +1081,8 @@ class Executor(ExprMixin):
 
     def b_implies(self, e, st):
         a = Tr(self.eval1(e.args[0], st))
+        if z3.is_false(z3.simplify(a)):
+            return [(st, z3.BoolVal(True))]
         s2 = St()
         s2.pc = list(st.pc) + [a]
         s2.env = st.env
@@ -1128,8 +1172,10 @@ class Executor(ExprMixin):
                 s.env[fn.args.vararg.arg] = PyConst("varargs")
             if fn.args.kwarg is not None:
                 s.env[fn.args.kwarg.arg] = PyConst("kwargs")
+            self.assuming = True
             for r in c.requires:
                 s.assume(Tr(self.spec_eval(r, s)))
+            self.assuming = False
             if not self.feasible(s, z3.BoolVal(True)):
                 self.vc(s, z3.BoolVal(False), "vacuity", "precondition together with the type invariants is satisfiable", fn.lineno)
                 continue
